@@ -226,6 +226,102 @@ fn execute(desc: &Value) -> anyhow::Result<(bool, Node)> {
                 Err(e) => (false, Node::S(errtxt(&e))),
             }
         }
+        "fan" => {
+            // trains with 2-3 usable origin links (merging) and 1-3 destination links (diverging): est-time
+            // construction for every train, then dispatch of all of them; network, location map and trains are rebuilt
+            // from the description on every execution
+            let w = world()?;
+            let no = gi(desc, "origs") as usize;
+            let nd = gi(desc, "dests") as usize;
+            let len = gi(desc, "llen");
+            let v = gi(desc, "v");
+            // links: origins 1..no; merge chain m_1..m_{no-1}; trunk t; split chain; destinations
+            #[derive(Clone, Default)]
+            struct L { next: usize, next_alt: usize, prev: usize, prev_alt: usize }
+            let mut ls: Vec<L> = vec![L::default(); 1];
+            let mut add = |ls: &mut Vec<L>| { ls.push(L::default()); ls.len() - 1 };
+            let origs: Vec<usize> = (0..no).map(|_| add(&mut ls)).collect();
+            // merge: first two origins join into m1, every further origin joins one link later
+            let mut cur = add(&mut ls);
+            ls[cur].prev = origs[0];
+            ls[cur].prev_alt = origs[1];
+            ls[origs[0]].next = cur;
+            ls[origs[1]].next = cur;
+            for o in origs.iter().skip(2) {
+                let m = add(&mut ls);
+                ls[m].prev = cur;
+                ls[m].prev_alt = *o;
+                ls[cur].next = m;
+                ls[*o].next = m;
+                cur = m;
+            }
+            // trunk link behind the last merge
+            let t = add(&mut ls);
+            ls[t].prev = cur;
+            ls[cur].next = t;
+            cur = t;
+            // split: nd destinations, each further one leaves one link later
+            let mut dests = vec![];
+            for k in 0..nd {
+                if k + 1 < nd {
+                    let d = add(&mut ls);
+                    let m = add(&mut ls);
+                    ls[cur].next = m;
+                    ls[cur].next_alt = d;
+                    ls[d].prev = cur;
+                    ls[m].prev = cur;
+                    dests.push(d);
+                    cur = m;
+                } else {
+                    dests.push(cur);
+                }
+            }
+            let links: Vec<Value> = ls
+                .iter()
+                .skip(1)
+                .enumerate()
+                .map(|(k, l)| json!({"len": len + 100 * (k as i64 % 3), "next": l.next, "next_alt": l.next_alt,
+                                     "prev": l.prev, "prev_alt": l.prev_alt,
+                                     "elevs": [[0, 0], [len + 100 * (k as i64 % 3), (k as i64 % 4) - 1]],
+                                     "rs": [[0, len + 100 * (k as i64 % 3), v + (k as i64 % 2)]]}))
+                .collect();
+            let net = match build::network(&json!({"oscale":1,"vscale":1,"escale":1,"links":links})) {
+                Ok(n) => n,
+                Err(e) => return Ok((false, Node::S(format!("net: {}", errtxt(&e))))),
+            };
+            let lm: LocationMap = HashMap::from([
+                ("A".to_string(), origs.iter().map(|l| build::location("A", *l as u32)).collect()),
+                ("B".to_string(), dests.iter().map(|l| build::location("B", *l as u32)).collect()),
+            ]);
+            let mut sims = vec![];
+            for (k, t) in ga(desc, "trains").iter().enumerate() {
+                let cars = ga(t, "cars");
+                let c = |i: usize| cars.get(i).and_then(|x| x.as_u64()).unwrap_or(4) as u32;
+                let tc = w.train_config([c(0), c(1), c(2), c(3)])?;
+                let its = InitTrainState::new(Some(uc::S * t["depart"].as_f64().unwrap_or(0.0)), None, None);
+                let tsb = TrainSimBuilder::new(format!("f{k}"), tc, Consist::default(), Some("A".into()), Some("B".into()), Some(its));
+                sims.push(tsb.make_speed_limit_train_sim(&lm, Some(10), None, None)?);
+            }
+            let mut nets = vec![];
+            let mut out = vec![];
+            for s in &sims {
+                match make_est_times(s.clone(), &net) {
+                    Ok((etn, con)) => {
+                        out.push(tree(&etn));
+                        out.push(tree(&con));
+                        nets.push(etn);
+                    }
+                    Err(e) => return Ok((false, Node::Seq(vec![Node::Seq(out), Node::S(format!("est: {}", errtxt(&e)))]))),
+                }
+            }
+            match run_dispatch(&net, &sims, nets, false, false) {
+                Ok(plans) => {
+                    out.push(tree(&plans));
+                    (true, Node::Seq(out))
+                }
+                Err(e) => (false, Node::Seq(vec![Node::Seq(out), Node::S(format!("dispatch: {}", errtxt(&e)))])),
+            }
+        }
         "dispatch" => {
             let w = world()?;
             let mut sims = vec![];
@@ -337,12 +433,27 @@ fn execute(desc: &Value) -> anyhow::Result<(bool, Node)> {
     })
 }
 
+/// first error / panic text inside an outcome tree (diagnostics only)
+fn first_text(n: &Node) -> String {
+    match n {
+        Node::S(s) if !s.is_empty() => s.chars().take(200).collect(),
+        Node::Seq(a) => a.iter().rev().map(first_text).find(|s| !s.is_empty()).unwrap_or_default(),
+        _ => String::new(),
+    }
+}
+
 /// `execute` with a panic turned into an outcome
-fn outcome(desc: &Value) -> anyhow::Result<(bool, Value)> {
+fn outcome(desc: &Value) -> anyhow::Result<(bool, Value, String)> {
     match std::panic::catch_unwind(std::panic::AssertUnwindSafe(|| execute(desc))) {
-        Ok(Ok((ok, n))) => Ok((ok, dig(&Node::Seq(vec![Node::B(ok), n])))),
+        Ok(Ok((ok, n))) => {
+            let msg = if ok { String::new() } else { first_text(&n) };
+            Ok((ok, dig(&Node::Seq(vec![Node::B(ok), n])), msg))
+        }
         Ok(Err(e)) => Err(e),
-        Err(p) => Ok((false, dig(&Node::S(format!("panic: {}", panic_msg(&p)))))),
+        Err(p) => {
+            let m = format!("panic: {}", panic_msg(&p));
+            Ok((false, dig(&Node::S(m.clone())), m.chars().take(200).collect()))
+        }
     }
 }
 
@@ -360,9 +471,11 @@ fn err_idx(e: &anyhow::Error) -> i64 {
 fn exec(desc: &Value, tr: &mut Tracer) -> anyhow::Result<()> {
     let kind = gs(desc, "kind");
     // whole-input executions: twice here, once in a second process
-    for how in ["inproc1", "inproc2"] {
-        let (ok, d) = outcome(desc)?;
-        tr.emit(json!({"ev":"Run","id":kind,"how":how,"ok":ok,"d":d}));
+    // (inputs with several origin links: four in-process executions)
+    let hows: &[&str] = if kind == "fan" { &["inproc1", "inproc2", "inproc3", "inproc4"] } else { &["inproc1", "inproc2"] };
+    for how in hows {
+        let (ok, d, msg) = outcome(desc)?;
+        tr.emit(json!({"ev":"Run","id":kind,"how":how,"ok":ok,"d":d,"msg":msg}));
     }
     {
         let exe = std::env::current_exe()?;
@@ -430,7 +543,7 @@ fn gen(seed: u64, n: usize, tier: &str) -> Vec<Value> {
     for k in 0..n {
         let mut r = Rng::new(seed.wrapping_mul(9_176_533).wrapping_add(k as u64));
         let cars = |r: &mut Rng| json!([r.range(5, 50), r.range(1, 30), r.range(1, 20), r.range(1, 25)]);
-        let c = match k % 12 {
+        let c = match k % 14 {
             0 | 1 | 2 | 3 => {
                 // larger batches, random unit parameters, failing element at a random position (or none)
                 let nb = r.range(2, 12);
@@ -462,13 +575,21 @@ fn gen(seed: u64, n: usize, tier: &str) -> Vec<Value> {
                     .collect();
                 json!({"kind":"dispatch","trains":trains,"walk": r.chance(1, (4 / heavy) as u64)})
             }
+            12 | 13 => {
+                let nt = r.range(1, 2);
+                let trains: Vec<Value> = (0..nt)
+                    .map(|i| json!({"cars":[r.range(3, 15), r.range(1, 8), r.range(1, 6), r.range(1, 6)], "depart": i * r.range(1, 10) * 120}))
+                    .collect();
+                json!({"kind":"fan","origs":r.range(2, 3),"dests":*r.pick(&[1, 1, 2, 3]),"llen":r.range(15, 40) * 100,
+                       "v":r.range(10, 18),"trains":trains})
+            }
             10 | 11 => {
                 // per-train-type speed sets on every link (2-3 types) and a train of one of those types
                 let all = ["Freight", "Intermodal", "Passenger"];
                 let nt = r.range(2, 3) as usize;
                 let types: Vec<&str> = if nt == 3 { all.to_vec() } else { vec!["Freight", *r.pick(&["Intermodal", "Passenger"])] };
                 let tt = *r.pick(&types);
-                json!({"kind":"typed","sim": if k % 12 == 10 {"setspeed"} else {"speedlimit"},"ttype":tt,"types":types,
+                json!({"kind":"typed","sim": if k % 14 == 10 {"setspeed"} else {"speedlimit"},"ttype":tt,"types":types,
                        "v":(0..4).map(|_| r.range(7, 13)).collect::<Vec<_>>(),"links":r.range(2, 4),
                        "cars":[r.range(3, 20), r.range(1, 10), r.range(1, 8), r.range(1, 8)],
                        "len": r.range(40, 200) * heavy})
@@ -496,7 +617,7 @@ fn main() {
         arm(std::env::var("AVH_CHILD_MS").ok().and_then(|s| s.parse().ok()).unwrap_or(60_000));
         let desc: Value = serde_json::from_str(&a[2]).expect("child: bad descriptor");
         match outcome(&desc) {
-            Ok((ok, d)) => println!("{}", json!({"ok":ok,"d":d})),
+            Ok((ok, d, _)) => println!("{}", json!({"ok":ok,"d":d})),
             Err(e) => {
                 eprintln!("child: {}", errtxt(&e));
                 std::process::exit(3);
